@@ -5,16 +5,20 @@ import hirq, anchors, absx, peg, cone, engine, unesc, sem
 from shapes import *
 
 EXPLANATION = ("P1 the PEG extracted from the nom combinator calls of src/filter.rs (resolved callees; let-chains, alt, delimited, preceded, "
-               "many0/1, opt, recognize, verify, map, map_res, fold_many0, tag, take_while(1), digit1, be_u8) equals the reference PEG of "
-               "RFC 4515 plus the documented extensions (bare item; empty (&) and (|)); parse() accepts only with an empty remainder; every "
-               "nom primitive is the `complete` variant; P2 byte classes evaluated exhaustively over all 256 bytes (value characters = all "
-               "but NUL ( ) *; alnum-hyphen; alphabetic first character) and the leading-zero rule of `number` over its partition; P3 the "
-               "semantic actions, abstractly evaluated on every path, build RFC 4511 Filter shapes: and [0], or [1], not [2] explicit, "
-               "equalityMatch [3], substrings [4] {initial [0], any [1], final [2]}, >= [5], <= [6], present [7] primitive, ~= [8], "
-               "extensibleMatch [9] {matchingRule [1], type [2], matchValue [3], dnAttributes [4]} with the parser output feeding each slot; "
-               "P4 the equality / presence / substring discrimination conditions and the adjacent-asterisk rejection predicate; P5 the "
+               "many0/1, opt, recognize, verify, map, map_res, fold_many0, tag, take_while(1), digit1, be_u8; a parser written by hand is read off its "
+               "enumerated paths: the remainder it returns is a chain of parser applications / longest-prefix splits) equals the reference PEG of "
+               "RFC 4515 plus the documented extensions (bare item; empty (&) and (|)), at language level when the function boundaries differ - an "
+               "acceptance test that only reads values fixed earlier in the rule (the operator matched) is decided, not kept opaque; parse() accepts only "
+               "with an empty remainder; every nom primitive is the `complete` variant; P2 byte classes evaluated exhaustively over all 256 bytes (value "
+               "characters = all but NUL ( ) *; alnum-hyphen; alphabetic first character) and the leading-zero rule of `number` over its partition; P3 the "
+               "semantic actions build RFC 4511 Filter shapes: and [0], or [1], not [2] explicit (abstractly evaluated on every path); the attribute-value "
+               "items - found by the role of each parse step, not by function name - by exhaustive literal evaluation of the item parser over operator x "
+               "value empty/not x every admissible `*` list of 0..4 components: equalityMatch [3], substrings [4] {initial [0], any [1], final [2]}, >= [5], "
+               "<= [6], present [7] primitive, ~= [8]; extensibleMatch [9] {matchingRule [1], type [2], matchValue [3], dnAttributes [4]} with the parser "
+               "output feeding each slot; P4 the equality / presence / substring discrimination (same evaluation), no `*` list after an ordering / approx "
+               "operator, and the adjacent-asterisk test evaluated on all 121 lists of 0..4 components over {empty, x, *}; P5 the "
                "unescaper's transition table over {backslash, hex digit, other} x {WantFirst, WantSecond, Value, Error} and acceptance only "
-               "in Value, and the unescaper evaluated exhaustively on literals over all 5120 (state, byte) pairs (hex arithmetic included); P6 no panic source reachable from parse / parse_matched_values that is not reviewed infeasible. Not decided: "
+               "in Value, the value fold (fold_many0 closures or a loop over the consumed prefix: base case, generic step, acceptance) and the unescaper evaluated exhaustively on literals over all 5120 (state, byte) pairs (hex arithmetic included); P6 no panic source reachable from parse / parse_matched_values that is not reviewed infeasible or discharged by a guard re-read on every run. Not decided: "
                "'printing the BER reproduces the input' taken whole.")
 TRUSTED = ['nom combinator semantics', 'RFC 4515 grammar transcribed below', 'rules/triage/C08.tsv']
 UNDECIDED = ['round trip through a canonical printer taken whole']
@@ -388,11 +392,11 @@ def check_simple_items(ctx, f, X, rules, classmap, inl):
     the results of the parsers it applies are replaced, at their application sites, by every combination of
         operator   each literal the operator step can match,
         value      empty / non-empty,
-        `*` list   every list of 0..3 components that the list's acceptance test lets through (components before the last
+        `*` list   every list of 0..4 components that the list's acceptance test lets through (components before the last
                    non-empty and pairwise distinct, the last one empty or not),
     and the Tag built on the single resulting path is compared with the RFC 4511 Filter the item denotes.  The code decides on a
-    list only through its length, the emptiness of a component and a component's position relative to the end; lengths 0..3
-    cover {no asterisk, one, two (an `any` component), three (two `any` components in order)} x {last empty, not}, and the
+    list only through its length, the emptiness of a component and a component's position relative to the end; lengths 0..4
+    cover {no asterisk, one, two (an `any` component), three and four (several `any` components in order)} x {last empty, not}, and the
     distinct literals tie every output octet string to the component it must come from.  So the discrimination equality /
     presence / substrings, the initial / any / final tagging and the operator table are decided however they are spelled (a
     loop with `break`, `pop` + `extend(map)`, a `match`, one merged function or two).  A combination the evaluator cannot
@@ -429,7 +433,7 @@ def check_simple_items(ctx, f, X, rules, classmap, inl):
                         'e.g. (a%s*) would be compiled as %s' % (op.decode(), op.decode(), op.decode(), describe_built(f, B, roles, steps, op, b'', (b'',), inl)))
             lists = [()]
             if lists_possible:
-                lists += [NONEMPTY[:n] + (last,) for n in range(0, 3) for last in (b'', b'z')]
+                lists += [NONEMPTY[:n] + (last,) for n in range(0, 4) for last in (b'', b'z')]
             for initial in (b'', b'i'):
                 for lst in lists:
                     if op != b'=' and lst:
@@ -454,7 +458,7 @@ def check_simple_items(ctx, f, X, rules, classmap, inl):
     for need in ('equality', 'present', 'substrings', 'substrings|any', 'substrings|final'):
         ctx.add('P4.discrimination', need, anchor, need in kinds, 'no combination of parse results makes the item parser build a correct filter of kind ' + need)
     ctx.add('P4.adjacent-asterisks.present', 'list test', anchor, any('list' in r for p, r in items), 'no item parser reads a `*` list')
-    ctx.floor('P3', 'attribute-value item combinations evaluated', n_rows, 20)
+    ctx.floor('P3', 'attribute-value item combinations evaluated', n_rows, 24)
 
 def build_item(f, B, roles, steps, op, initial, lst, inl):
     """((path, Tag term), None) of the single accepting path of the item parser when its parsers yield the given results,
@@ -637,8 +641,17 @@ def fold_facts(f, U):
     ok_init = ok_step = ok_acc = ok_src = True
     seen = set()
     n_final = 0
+    # the application of the byte-class parser the remainder comes from (if the prefix is cut off by a parser): only *its* failure
+    # may be propagated; every other error path must be the "not in Value" rejection decided below
+    own_app = set()
     for o in outs:
-        if o.kind in ('val', 'ret') and o.val[0] == 'tryerr':
+        v = o.val
+        if o.kind in ('val', 'ret') and v[0] == 'ctor' and v[1] == 'Ok' and v[2] and v[2][0][0] == 'tuple' and len(v[2][0][1]) == 2:
+            r = v[2][0][1][0]
+            if peg.prefix_split(r) is not None and r[1][0] == 'variant':
+                own_app.add(r[1][1])
+    for o in outs:
+        if o.kind in ('val', 'ret') and o.val[0] == 'tryerr' and o.val[1] in own_app:
             continue                # the byte-class parser's own failure, propagated
         carried = [e for e in o.st.ev if e[0] == 'loop-carried']
         loops = {id(e[3]) for e in carried}
